@@ -13,6 +13,7 @@ import ScyllaVerif.Proofs.DecodeRT
 import ScyllaVerif.Proofs.CustomFuel
 import ScyllaVerif.Proofs.C08Nest
 import ScyllaVerif.Proofs.C08HeaderNP
+import ScyllaVerif.Proofs.C08Lending
 
 namespace ScyllaVerif.Props.C08
 open ScyllaVerif.C08
@@ -680,6 +681,28 @@ theorem iterRows_prefix (ncols : Nat) : ∀ (n ridx : Nat) (buf : Bytes),
       obtain ⟨cells, b⟩ := p
       simp only [List.takeWhile_cons, if_true, List.map_cons]
       rw [iterRows_prefix ncols n (ridx + 1) b]
+
+/-! ### the lending row iterator of the paged path
+
+`RawRowLendingIterator` (behind `QueryPager` / `TypedRowStream`) keeps a persistent byte offset `self.at` into the
+page and re-slices `&raw_rows[self.at..]` on every `next()` — a partial operation — and advances the offset by
+`len_before - len_after` of each cell read.  `Model/Response.lean` `lendRows` models it with those panic sites. -/
+
+/-- The lending iterator never panics and yields, for ALL page bytes, column counts and announced row counts,
+exactly the item sequence of `RawRowIterator` (`iterRows`): same cells for Ok rows, same error tail.
+(`raw.length ≤ usize::MAX`: the page is in memory.) -/
+theorem lending_iterator_is_plain_iterator (ncols : Nat) (raw : Bytes) (hraw : raw.length ≤ USIZE_MAX) (n : Nat) :
+    lendRows ncols n 0 raw = .ok (iterRows ncols n raw) := by
+  have := lendRows_eq ncols raw hraw n 0 (Nat.zero_le _)
+  simpa using this
+
+theorem no_panic_lending (ncols : Nat) (raw : Bytes) (hraw : raw.length ≤ USIZE_MAX) (n : Nat) (site : String) :
+    lendRows ncols n 0 raw ≠ .panic site := by
+  rw [lending_iterator_is_plain_iterator ncols raw hraw n]; intro h; cases h
+
+/-- Non-vacuity of the re-slicing panic site: an offset past the page would panic. -/
+example : lendRows 1 1 5 [0, 0, 0, 0] = .panic "range start index out of range for slice" := by
+  rfl
 
 /-! ### truncation of whole responses
 
